@@ -52,6 +52,16 @@ theorem setActive_fields {s s' : St} {v : Val} (h : s.setActive v = .ok s') :
   | npint k =>
     simp only [St.setActive] at h
     exact key _ h
+  | floatObs r tvr cum =>
+    simp only [St.setActive] at h
+    split at h
+    · exact key _ h
+    · cases h
+  | floatObsClamped r tvr cum =>
+    simp only [St.setActive] at h
+    split at h
+    · exact key _ h
+    · cases h
 
 theorem sum_take_drop (l : List Rat) (k : Nat) : (l.take k).sum + (l.drop k).sum = l.sum :=
   List.sum_take_add_sum_drop l k
@@ -88,6 +98,31 @@ theorem trim_originalVariance {s s' : St} {v : Option Val} (h : s.trim v = .ok s
     linarith
   · exact h1
 
+/-- the shapes of a successful `orthonormalize_against_inplace` (bookkeeping part): nothing, a trim,
+or a trim followed by the integer form of the setter -/
+theorem ortho_cases {s s' : St} {d k1 : Nat} (h : s.orthoAgainst d k1 = .ok s') :
+    s' = s ∨ ∃ s1, s.trim (some (.int (orthoAvail d k1 s.rows))) = .ok s1 ∧
+      (s' = s1 ∨ s1.setActive (.int (orthoSavedActive s (orthoAvail d k1 s.rows))) = .ok s') := by
+  unfold St.orthoAgainst at h
+  split at h
+  · cases h
+  · split at h
+    · split at h
+      · cases h
+      · rename_i s1 hs1
+        refine Or.inr ⟨s1, hs1, ?_⟩
+        split at h
+        · exact Or.inr h
+        · cases h; exact Or.inl rfl
+    · cases h; exact Or.inl rfl
+
+theorem ortho_originalVariance {s s' : St} {d k1 : Nat} (h : s.orthoAgainst d k1 = .ok s') :
+    s'.originalVariance = s.originalVariance := by
+  rcases ortho_cases h with rfl | ⟨s1, h1, rfl | h2⟩
+  · rfl
+  · exact trim_originalVariance h1
+  · rw [setActive_originalVariance h2, trim_originalVariance h1]
+
 theorem step_originalVariance (s : St) (o : Op) : (s.step o).originalVariance = s.originalVariance := by
   unfold St.step
   split
@@ -95,6 +130,7 @@ theorem step_originalVariance (s : St) (o : Op) : (s.step o).originalVariance = 
     cases o with
     | set v => exact setActive_originalVariance h
     | trim v => exact trim_originalVariance h
+    | ortho d k1 => exact ortho_originalVariance h
   · rfl
 
 theorem run_originalVariance (s : St) (ops : List Op) :
@@ -163,13 +199,25 @@ theorem reach_trim {eig0 : List Rat} {s s' : St} {v : Option Val} (hr : Reach ei
       rw [hmin]
   · exact r1
 
+theorem reach_ortho {eig0 : List Rat} {s s' : St} {d k1 : Nat} (hr : Reach eig0 s)
+    (h : s.orthoAgainst d k1 = .ok s') : Reach eig0 s' := by
+  rcases ortho_cases h with rfl | ⟨s1, h1, rfl | h2⟩
+  · exact hr
+  · exact reach_trim hr h1
+  · exact reach_setActive (reach_trim hr h1) h2
+
+theorem reach_apply {eig0 : List Rat} {s s' : St} (hr : Reach eig0 s) {o : Op} (h : s.apply o = .ok s') :
+    Reach eig0 s' := by
+  cases o with
+  | set v => exact reach_setActive hr h
+  | trim v => exact reach_trim hr h
+  | ortho d k1 => exact reach_ortho hr h
+
 theorem reach_step {eig0 : List Rat} {s : St} (hr : Reach eig0 s) (o : Op) : Reach eig0 (s.step o) := by
   unfold St.step
   split
   · rename_i s' h
-    cases o with
-    | set v => exact reach_setActive hr h
-    | trim v => exact reach_trim hr h
+    exact reach_apply hr h
   · exact hr
 
 theorem reach_run {eig0 : List Rat} {s : St} (hr : Reach eig0 s) (ops : List Op) :
@@ -287,6 +335,7 @@ theorem trim_int_of_reach {eig0 : List Rat} {s : St} (hr : Reach eig0 s) {k : Na
 def Op.isSet : Op → Bool
   | .set _ => true
   | .trim _ => false
+  | .ortho _ _ => false
 
 theorem run_sets {rows : Nat} {eig0 : List Rat} (ops : List Op) (h : ∀ o ∈ ops, o.isSet = true)
     (s : St) (hs : s.rows = rows ∧ s.eig = eig0 ∧ s.trimmed = []) :
@@ -298,6 +347,7 @@ theorem run_sets {rows : Nat} {eig0 : List Rat} (ops : List Op) (h : ∀ o ∈ o
     have ho := h o List.mem_cons_self
     cases o with
     | trim v => simp [Op.isSet] at ho
+    | ortho d k1 => simp [Op.isSet] at ho
     | set v =>
       unfold St.step
       split
